@@ -29,9 +29,9 @@ func (t *Teamserver) Died(Agent *agent.Agent) {
 
 func (t *Teamserver) UnlinkFromAll(Agent *agent.Agent) {
 	// remove all links from agent
-	for i := range Agent.Pivots.Links {
-		t.LinkRemove(Agent, Agent.Pivots.Links[i], false)
-		Agent.Pivots.Links = append(Agent.Pivots.Links[:i], Agent.Pivots.Links[i+1:]...)
+	for len(Agent.Pivots.Links) > 0 {
+		t.LinkRemove(Agent, Agent.Pivots.Links[0], false)
+		Agent.Pivots.Links = Agent.Pivots.Links[1:]
 	}
 
 	// remove agent from parent's link
